@@ -115,7 +115,7 @@ Proof.
   - exact I.
   - destruct (find_dur _ _) as [[?|?]|]; try exact I. apply benign_oracle.
   - destruct (has_prefix _ _); exact I.
-  - exact I.
+  - destruct (has_prefix _ _); exact I.
 Qed.
 
 Lemma convert_wp orc b ty : forall v cur, wp benign (convert orc b v ty cur) (fun _ => True).
